@@ -925,7 +925,7 @@ func TestVerifC22(t *testing.T) {
 	// back by that metric's offset. That only works when the offset is a whole number of steps of
 	// every level, which the code under test decides per query (it may refuse). Here: every offset
 	// of an alphabet built from the table steps themselves (each step, three times each step, the sum
-	// of each two neighbouring steps, the monthly marker, 4 weeks, 2 days - i.e. for every level step
+	// of each two neighbouring steps, the monthly marker, 4 weeks, 2 days, three negative ones - i.e. for every level step
 	// s there are offsets below s, equal to s, multiples of s and non-multiples between them) x the
 	// offset of a second metric (absent or from the same alphabet) x ranges whose ends sit on both
 	// sides of both level switches (so that the unshifted and/or the shifted range straddles a
@@ -937,6 +937,7 @@ func TestVerifC22(t *testing.T) {
 	{
 		fixed := []int64{1, 5, 15, 60, 300, 900, 3600, 4 * 3600, c22Day, c22Week}
 		offAlpha = append(offAlpha, 0, c22Month, 4*c22Week, 2*c22Day)
+		offAlpha = append(offAlpha, -60, -2700, -c22Day) // shifts into the future
 		for i, st := range fixed {
 			offAlpha = append(offAlpha, st, 3*st)
 			if i > 0 {
